@@ -28,11 +28,15 @@ def plan(seed, tier):
     cases = [{"id": f"wire-{seed}-{i}", "seed": seed * 100003 + i} for i in range(n)]
     # APIs that define RPCs named like mixin RPCs themselves while the service YAML lists the mixin: the API's own RPC is the one called
     cases += [{"id": f"wire-own-iam-{seed}-{i}", "seed": seed * 100003 + 7000 + i, "own_iam": True} for i in range(max(3, n // 5))]
+    # two proto-plus modules with one base name (root package and a sub-package) behind one service
+    cases += [{"id": f"wire-twin-{seed}-{i}", "seed": seed * 100003 + 8000 + i, "twin": True} for i in range(max(2, n // 8))]
     return cases
 
 
 def build_api(case):
     rng = random.Random(case["seed"])
+    if case.get("twin"):
+        return apigen.twin_module_api(rng, "r%d" % (case["seed"] % 100000))
     if case.get("own_iam"):
         own = rng.choice([["GetIamPolicy"], ["SetIamPolicy", "TestIamPermissions"], ["SetIamPolicy", "GetIamPolicy", "TestIamPermissions"]])
         return apigen.mixin_api(rng, "r%d" % (case["seed"] % 100000), rng.choice([["iam"], ["iam", "locations"], ["operations", "iam"]]), "all",
